@@ -135,6 +135,35 @@ def run(ctx):
                 q["runs"] = 2
                 q["reseed"] = 1
                 ps.append(q)
+        # the stop raised by exactly the evaluation that also reaches stopval (a new best value): FORCED_STOP must win.  Two stages:
+        # a reference run gives the trace; stopval is then placed between the k-th value and the best value before it
+        from ..common import unhex
+        refs = []
+        for nm in problems.ALL:
+            for rep in range(4 if ctx.thorough else 2):
+                p = problems.gen_problem(rng, A, alg_name=nm, maxeval=rng.choice([80, 150]), with_constraints=False, box="finite", allow_max=False)
+                for kk in ("maxtime", "clockq", "clock0", "stopval", "xtol_abs", "ftol_rel", "xtol_rel", "ftol_abs", "xw"):
+                    p.pop(kk, None)
+                p["obj"] = rng.choice([0, 1, 3])
+                refs.append(p)
+        rruns, _ = swrap.run_specs(bdir, [problems.to_line(p) for p in refs], env=env)
+        for p, r in zip(refs, rruns):
+            if r.status != "ok" or r.R is None or len(r.calls) < 4:
+                continue
+            vals = [unhex(c.val) for c in r.calls]
+            best, cand = vals[0], []
+            for k in range(1, len(vals)):
+                if vals[k] == vals[k] and vals[k] < best:
+                    if k >= 2:
+                        cand.append((k + 1, 0.5 * (vals[k] + best)))
+                    best = vals[k]
+            for k, sv in (rng.sample(cand, 3) if len(cand) > 3 else cand):
+                q = dict(p)
+                q["stopval"] = sv
+                q["stopat"] = k
+                q["runs"] = 2
+                q["reseed"] = 1
+                ps.append(q)
         lines = [problems.to_line(p) for p in ps]
         runs, _ = swrap.run_specs(bdir, lines, env=env)
         n1 = n2 = unrelated = 0
